@@ -126,6 +126,27 @@ def invert_partial_order(tree):
                and (_partial_order_value(c.left, env) or _partial_order_value(c.comparators[0], env)) for _, c in _negated_compares(tree))
 
 
+def _user_class_names(tree):
+    return {c.name for c in _walk(tree, ast.ClassDef)
+            if any(isinstance(f, ast.FunctionDef) and f.name in ("__lt__", "__le__", "__gt__", "__ge__") for f in c.body)}
+
+
+def invert_user_ordering(tree):
+    """a negated ordering comparison in a program that defines a class with some (not necessarily all) comparison methods"""
+    return bool(_user_class_names(tree)) and any(
+        len(c.ops) == 1 and isinstance(c.ops[0], (ast.Lt, ast.LtE, ast.Gt, ast.GtE)) for _, c in _negated_compares(tree))
+
+
+def set_literal_in_fstring_field(tree):
+    """`set([...])` is the whole expression of an f-string replacement field: the display's `{` meets the field's `{`"""
+    for fv in _walk(tree, ast.FormattedValue):
+        v = fv.value
+        if isinstance(v, ast.Call) and isinstance(v.func, ast.Name) and v.func.id == "set" and len(v.args) == 1 \
+                and isinstance(v.args[0], ast.List) and v.args[0].elts:
+            return True
+    return False
+
+
 def _gen_calls(tree):
     for n in _walk(tree, ast.Call):
         if isinstance(n.func, ast.Name) and n.func.id in ("any", "all", "sum", "min", "max") and n.args:
@@ -348,6 +369,11 @@ def abstractproperty_shadowed_abc(tree):
     return False
 
 
+# a further check on the rewritten text, where the mechanism leaves a recognisable trace there
+REWRITE_CHECK = {
+    "kf_set_literal_fstring_braces": lambda src, rw: rw is not None and "{{" in rw and "{{" not in src,
+}
+
 RAISES = lambda obs, exc: obs[0].endswith("RAISED %s\n" % exc)
 
 # (class, codemods, predicate(tree, source, before, after)); the first match wins
@@ -360,11 +386,15 @@ CLASSES = [
     # A return of the parentheses defect flips the translator's invert shape (iv_parens) and is reported through the table.
     ("kf_invert_is_literal", ("invert-boolean-check",), lambda t, s, b, a: invert_is_literal(t)),
     ("kf_invert_is_false_operand", ("invert-boolean-check",), lambda t, s, b, a: invert_is_false_operand(t)),
-    ("kf_invert_partial_order", ("invert-boolean-check",), lambda t, s, b, a: invert_partial_order(t)),
+    ("kf_invert_partial_order", ("invert-boolean-check",), lambda t, s, b, a: invert_partial_order(t) or invert_user_ordering(t)),
     ("kf_generator_starred_arg", ("use-generator",), lambda t, s, b, a: generator_starred(t)),
     ("kf_generator_await", ("use-generator",), lambda t, s, b, a: generator_await(t)),
     ("kf_generator_shortcircuit", ("use-generator",), lambda t, s, b, a: generator_shortcircuit(t)),
     ("kf_set_literal_starred_arg", ("use-set-literal",), lambda t, s, b, a: set_literal_starred(t)),
+    ("kf_set_literal_fstring_braces", ("use-set-literal",), lambda t, s, b, a: set_literal_in_fstring_field(t)),
+    ("kf_hasattr_arity", ("fix-hasattr-call",), lambda t, s, b, a: any(
+        isinstance(n.func, ast.Name) and n.func.id == "hasattr" and len(n.args) != 2 and n.args
+        and isinstance(n.args[-1], ast.Constant) and n.args[-1].value == "__call__" for n in _walk(t, ast.Call))),
     ("kf_walrus_nested_scope_read", ("use-walrus-if",), lambda t, s, b, a: walrus_nested_scope_read(t)),
     ("kf_walrus_inline_precedence", ("use-walrus-if",), lambda t, s, b, a: walrus_inline_precedence(t)),
     ("kf_lazy_logging_nonstr_operand", ("lazy-logging",), lambda t, s, b, a: lazy_logging_plus(t) and RAISES(b, "TypeError")),
@@ -382,8 +412,61 @@ CLASSES = [
 ]
 
 
-def classify(codemod, source, before, after):
-    """name of the first finding class the case falls into, or None"""
+def outcome(obs):
+    """('value', stdout) or ('raise', exception type): what the WRAP runner of c08_families printed last"""
+    out = obs[0]
+    lines = out.rstrip("\n").split("\n")
+    if lines and lines[-1].startswith("RAISED "):
+        return ("raise", lines[-1][len("RAISED "):])
+    return ("value", out)
+
+
+def _v2v(b, a):
+    return outcome(b)[0] == "value" and outcome(a)[0] == "value"
+
+
+def _to_raise(*types):
+    return lambda b, a: outcome(a)[0] == "raise" and outcome(a)[1] in types
+
+
+def _either(*preds):
+    return lambda b, a: any(p(b, a) for p in preds)
+
+
+# the failure each class predicts: a difference on an input of the class's shape is absorbed only if it looks like this
+EXPECTED_FAILURE = {
+    "kf_combine_starred_arg": _to_raise("TypeError"),
+    "kf_combine_regroup": _v2v,
+    "kf_combine_tuple_name": _to_raise("TypeError"),
+    "kf_invert_is_literal": _v2v,
+    "kf_invert_is_false_operand": _v2v,
+    "kf_invert_partial_order": _either(_v2v, _to_raise("TypeError")),
+    "kf_generator_starred_arg": _either(_v2v, _to_raise("TypeError"), lambda b, a: outcome(b) == ("raise", "TypeError")),
+    "kf_generator_await": _to_raise("TypeError"),
+    # elements after the deciding one are no longer evaluated: fewer effects, or an exception that no longer happens
+    "kf_generator_shortcircuit": _either(_v2v, lambda b, a: outcome(b)[0] == "raise" and outcome(a)[0] == "value"),
+    "kf_set_literal_starred_arg": _either(_v2v, _to_raise("TypeError"), lambda b, a: outcome(b) == ("raise", "TypeError")),
+    "kf_set_literal_fstring_braces": _either(_v2v, _to_raise("SyntaxError")),
+    "kf_hasattr_arity": lambda b, a: outcome(a)[0] == "value",
+    "kf_walrus_nested_scope_read": _to_raise("NameError", "UnboundLocalError"),
+    "kf_walrus_inline_precedence": _either(_v2v, _to_raise("SyntaxError")),
+    "kf_lazy_logging_nonstr_operand": lambda b, a: outcome(b) == ("raise", "TypeError") and outcome(a)[0] == "value",
+    "kf_lazy_logging_tuple_variable": _either(_v2v, lambda b, a: outcome(b) == ("raise", "TypeError") and outcome(a)[0] == "value"),
+    "kf_lazy_logging_stray_percent": _v2v,
+    "kf_lazy_logging_raw_mix": _v2v,
+    "kf_resource_leak_escaping_handle": _to_raise("NameError", "ValueError", "UnboundLocalError"),
+    "kf_resource_leak_unused_handle": _v2v,
+    "kf_sql_format_spec": _v2v,
+    "kf_sql_brace_literal": _v2v,
+    "kf_sql_printf_bare_operand": _to_raise("OperationalError"),
+    "kf_sql_removed_assignment": _v2v,
+    "kf_order_imports_rebinding": _v2v,
+    "kf_abstractproperty_shadowed_abc": _to_raise("AttributeError", "TypeError"),
+}
+
+
+def classify(codemod, source, before, after, rewritten=None):
+    """name of the first finding class whose input predicate holds AND whose predicted failure is the one observed, or None"""
     try:
         tree = ast.parse(source)
     except SyntaxError:
@@ -391,7 +474,8 @@ def classify(codemod, source, before, after):
     for name, codemods, pred in CLASSES:
         if codemod in codemods:
             try:
-                if pred(tree, source, before, after):
+                if pred(tree, source, before, after) and EXPECTED_FAILURE.get(name, lambda b, a: True)(before, after) \
+                        and REWRITE_CHECK.get(name, lambda s, r: True)(source, rewritten):
                     return name
             except Exception:      # a predicate must never hide a difference
                 continue
